@@ -166,8 +166,8 @@ fn context(msg: &str, p: &api::Problem, s: &sol::Solution) -> &'static str {
         ("cannot find break", &shift_by_time, " [shift of the tour resolved by time overlap]"),
         ("cannot find reload", &shift_by_time, " [shift of the tour resolved by time overlap]"),
         ("tour size limit", &shift_by_time, " [shift of the tour resolved by time overlap]"),
-        ("load mismatch", &job_at_departure, " [job at departure stop]"),
         ("load mismatch", &reload_shares_stop, " [reload shares a stop]"),
+        ("load mismatch", &job_at_departure, " [job at departure stop]"),
         ("cannot match activities to jobs", &shared_location, " [places of a task share a location]"),
         ("cannot match activities to jobs", &spans_windows, " [service interval touches two time windows]"),
         ("cannot match all breaks", &break_inside_stop, " [break between two activities of a stop]"),
@@ -367,7 +367,17 @@ impl Env<'_> {
             for si in 0..tour.stops.len() {
                 let (far, first, site) = (ti > 0 || si >= 2, si == 0, format!("tour {ti} stop {si}"));
                 // a tour without any leg (everything happens at the start location of an open shift) is a site class of its own
-                let lone = |name: &str| if tour.stops.len() == 1 { format!("single-stop-tour.{name}") } else { name.to_string() };
+                // a departure stop that serves jobs and is directly followed by a reload stop belongs to a load interval without any leg
+                let before_reload = si == 0 && tour.stops[0].activities().iter().any(is_customer) && tour.stops.get(1).is_some_and(|n| n.activities().first().is_some_and(|a| a.activity_type == "reload"));
+                let lone = |name: &str| {
+                    if tour.stops.len() == 1 {
+                        format!("single-stop-tour.{name}")
+                    } else if before_reload && name.starts_with("load.") {
+                        format!("departure-stop-before-reload-stop.{name}")
+                    } else {
+                        name.to_string()
+                    }
+                };
                 let width = tour.stops[si].load().len();
                 let d = (ti + si) % width.max(1);
                 let with_load = |f: &dyn Fn(&mut i32)| {
@@ -586,7 +596,8 @@ impl Env<'_> {
     /// Moves a break activity completely behind / in front of the time window of its break.
     fn break_mutations(&self, ti: usize, tour: &sol::Tour, far: bool) -> Check {
         let Some(shift) = self.vehicle_index(tour).and_then(|vi| self.problem.fleet.vehicles[vi].shifts.get(tour.shift_index)) else { return Ok(()) };
-        let departure = tour.stops.first().and_then(|s| parse_time(&s.schedule().departure));
+        // offsets count from the moment the vehicle departs: the end of the departure activity when the first stop has more activities
+        let departure = tour.stops.first().and_then(|s| s.activities().first().filter(|a| a.activity_type == "departure").and_then(|a| a.time.as_ref()).map(|t| &t.end).or(Some(&s.schedule().departure)).and_then(|t| parse_time(t)));
         for (si, stop) in tour.stops.iter().enumerate() {
             for (ai, a) in stop.activities().iter().enumerate().filter(|(_, a)| a.activity_type == "break") {
                 let window = shift.breaks.iter().flatten().find_map(|b| match b {
